@@ -29,3 +29,47 @@ Proof.
   split; [vm_compute; intros H; discriminate H|vm_compute; reflexivity].
 Qed.
 Print Assumptions C03_original_inf_ignores_key_refuted.
+
+(** ** The refinement theorem (ScanProofs): on every store reached by puts and removes, for every interval
+    (all endpoint kinds, keys of any length incl. > 255 bytes), every max_size and both directions, the scan
+    returns exactly the interval filter of the store's map, in key order. *)
+From Yk Require Import KeyDefs KeyProofs TreeDefs ScanDefs StoreProofs ScanProofs.
+
+Theorem C03_scan_is_interval_filter : forall ctr tr a,
+  WF_store ctr tr -> scan_inv tr -> bytes (sa_l a) -> bytes (sa_r a) ->
+  exists o, scan tr a = Some o /\
+    if spec_scan_args_ok a
+    then so_status o = (if t_null tr then St_OK_ROOT_IS_NULL else St_OK) /\
+         map (fun kv => (fst kv, abs_value (snd kv))) (so_tuples o) = spec_scan_list (abs_tree tr) a
+    else so_status o = St_ERR_BAD_USAGE /\ so_tuples o = [].
+Proof. exact scan_refines_all. Qed.
+Print Assumptions C03_scan_is_interval_filter.
+
+(** the two side conditions are invariants of the store operations (and hold initially) *)
+Theorem C03_scan_inv_reachable :
+  scan_inv null_tree /\ (forall id, scan_inv (empty_tree id)) /\
+  (forall ctr tr k v unique tr' po ctr',
+     WF_store ctr tr -> bytes k -> put tr k v unique ctr = Some (tr', po, ctr') -> scan_inv tr -> scan_inv tr') /\
+  (forall tr k tr' ro, remove tr k = Some (tr', ro) -> scan_inv tr -> scan_inv tr').
+Proof.
+  split; [exact scan_inv_null|]. split; [exact scan_inv_empty|]. split; [exact put_scan_inv|exact remove_scan_inv].
+Qed.
+Print Assumptions C03_scan_inv_reachable.
+
+(** argument validation: exactly the empty / inverted intervals are rejected *)
+Theorem C03_scan_validate : forall a,
+  (scan_validate a = None <-> spec_scan_args_ok a = true) /\
+  (spec_scan_args_ok a = false -> scan_validate a = Some St_ERR_BAD_USAGE).
+Proof. exact scan_validate_spec. Qed.
+Print Assumptions C03_scan_validate.
+
+(** without the side conditions the statement is false: two well-formed but unreachable stores *)
+Theorem C03_side_conditions_needed :
+  ~ (forall ctr tr a, WF_store ctr tr -> t_null tr = false -> bytes (sa_l a) -> bytes (sa_r a) ->
+       exists o, scan tr a = Some o /\
+         if spec_scan_args_ok a
+         then so_status o = St_OK /\
+              map (fun kv => (fst kv, abs_value (snd kv))) (so_tuples o) = spec_scan_list (abs_tree tr) a
+         else so_status o = St_ERR_BAD_USAGE /\ so_tuples o = []).
+Proof. exact ScanCounterexamples.scan_refines_false_from_WF_store_alone. Qed.
+Print Assumptions C03_side_conditions_needed.
